@@ -191,7 +191,8 @@ class RawPeer:
 
         Returns dict(pre=code of passive, mark=1xx code|None, final=code, data=bytes, how=str)."""
         out = {"pre": None, "mark": None, "final": None, "data": b"", "how": None}
-        out["pre"] = await self.passive(passive)
+        if passive is not None:  # None = reuse the listener opened earlier
+            out["pre"] = await self.passive(passive)
         if self.passive_port is None:
             return out
         if connect == "before":
@@ -217,7 +218,8 @@ class RawPeer:
 
     async def upload(self, verb_line, payload, *, passive="EPSV", connect="before", chunks=None, data_timeout=None):
         out = {"pre": None, "mark": None, "final": None, "how": None}
-        out["pre"] = await self.passive(passive)
+        if passive is not None:
+            out["pre"] = await self.passive(passive)
         if self.passive_port is None:
             return out
         if connect == "before":
